@@ -2105,9 +2105,10 @@ pub fn generate(seed: u64, g: &GenCfg) -> Trace {
             }
             7 => Op::Reopen { flush: rng.chance(2, 3) },
             8 => Op::Flush,
-            _ => match rng.weighted(&[3, 2, 5]) {
+            _ => match rng.weighted(&[3, 2, 5, 1]) {
                 0 => Op::SetMeta { bytes: Vec::new() },
                 1 => Op::SetMeta { bytes: b"block:1234".to_vec() },
+                3 => Op::SetMeta { bytes: { let n = *rng.pick(&[255usize, 256, 4096, 70_000]); rng.bytes(n) } },
                 _ => {
                     let n = 1 + rng.usize_below(20);
                     Op::SetMeta { bytes: rng.bytes(n) }
